@@ -738,13 +738,13 @@ def lean_atom(p):
     if k == "param":
         return ".param t!%s" % lean_str(p[1])
     if k in ("ident", "value", "rowIdent", "rowValue"):
-        return ".%s %s" % (k, lean_str(p[1]))
+        return ".%s t!%s" % (k, lean_str(p[1]))
     raise ExtractionError("not an atom: %r" % (p,))
 
 
 def lean_inner(p):
     if p[0] == "opt":
-        return ".opt %s %s" % (lean_list([lean_str(f) for f in p[1]]), lean_list([lean_atom(a) for a in p[2]]))
+        return ".opt %s %s" % (lean_list(["t!" + lean_str(f) for f in p[1]]), lean_list([lean_atom(a) for a in p[2]]))
     return ".atom (%s)" % lean_atom(p)
 
 
@@ -752,7 +752,7 @@ def lean_piece(p):
     if p[0] == "rep":
         src, mode, body = p[1], p[2], p[3]
         fixed = lean_list(["(t!%s, %s)" % (lean_str(k), lean_list([lean_atom(a) for a in v])) for k, v in src["fixed"]])
-        arg = "none" if src["arg"] is None else "some %s" % lean_str(src["arg"])
+        arg = "none" if src["arg"] is None else "some t!%s" % lean_str(src["arg"])
         if mode[0] == "join":
             m = ".join t!%s" % lean_str(mode[1])
         elif mode[0] == "accTrim":
@@ -789,7 +789,7 @@ def generate():
         nm = def_name(op)
         names.append(nm)
         body += "/-- %s:%d%s -/\n" % (op["module"], op["line"], ("  when " + op["cond"]) if op["cond"] else "")
-        body += "def %s : Op :=\n  { key := %s, variant := %d, line := %d,\n    tpl := %s,\n    supplied := %s }\n\n" % (
+        body += "def %s : Op :=\n  { key := t!%s, variant := %d, line := %d,\n    tpl := %s,\n    supplied := %s }\n\n" % (
             nm, lean_str(op["key"]), op["variant"], op["line"],
             "[" + ",\n            ".join(lean_piece(p) for p in op["tpl"]) + "]",
             lean_list(["t!" + lean_str(s) for s in op["supplied"]]))
